@@ -600,7 +600,9 @@ class Inliner:
         # helper locals that are not locals of the calling function in the reference get a fresh name per inlined instance (two inlined
         # copies must not share temporaries); locals that the caller already had (statements moved out verbatim) keep their name
         own = stored - set(h.params)
-        fresh = {n: f'{n}__i{self._instance()}' for n in sorted(own) if n not in self.caller_ref_names}
+        # (a generator helper runs interleaved with the loop that consumes it: a local it shares by name with the consuming function would be overwritten between two yields)
+        clash = getattr(self, 'caller_cur_names', set()) if h.is_gen else set()
+        fresh = {n: f'{n}__i{self._instance()}' for n in sorted(own) if n not in self.caller_ref_names or n in clash}
         if fresh:
             class R(ast.NodeTransformer):
                 def visit_Name(self, node):
@@ -863,6 +865,7 @@ class Inliner:
         for q, f in list(alpha.functions(self.tree)):
             n0 = len(self.done)
             self.caller_ref_names = set((alpha.reference().get(self.relpath) or {}).get(q, {}).keys())
+            self.caller_cur_names = {n_.id for n_ in ast.walk(f) if isinstance(n_, ast.Name) and isinstance(n_.ctx, (ast.Store, ast.Del))} | {a_.arg for a_ in ast.walk(f.args) if isinstance(a_, ast.arg)}
             # locals of the caller that are bound (only) to a fresh instance of a class: `labeller = _BinLabeller(..)` - their type is known
             self.typed_locals = {}
             for a_ in ast.walk(f):
